@@ -320,7 +320,10 @@ Fixpoint dec_dgs (n : nat) (l : list N) : option (list dgspec * list N) :=
     end
   end.
 
-Record gcase := mkg { gc_drv : N; gc_tr : N; gc_plen : nat; gc_seed : N; gc_specs : list dgspec }.
+(* [gc_clen]: the control length the harness passes to recv_msg_multi, a function of the case
+   (also values that are not a multiple of the cmsg alignment) *)
+Record gcase := mkg { gc_drv : N; gc_tr : N; gc_plen : nat; gc_seed : N; gc_specs : list dgspec; gc_clen : nat }.
+Definition msg_multi_clen (n mcount : N) : nat := nth (nn ((n + mcount) mod 5)%N) [64; 20; 33; 16; 7]%nat 64%nat.
 
 Definition dg_payload (seed idx : N) (size : nat) : list byte := pat_list (seed + 131 * idx) 0 size.
 
@@ -384,7 +387,7 @@ Definition dg_expect (c : gcase) (g : dgspec) (rk : N) (d : dgram) : option (N *
     | Some bs => Some (NN (length bs), 0, 0, hash_list (managed_state bs))
     end
   | 12 | 13 =>
-    let clen := if rk =? 13 then 64%nat else O in
+    let clen := if rk =? 13 then gc_clen c else O in
     let pc := if poll then L else mshot_payload_cap L clen in
     let m := dg_answer d pc false in
     let bs := if poll then m_bytes m
@@ -453,7 +456,7 @@ Definition dgram_case (l : list N) : option (list N) :=
     match l with
     | [99999] => Some (illegal O 99999)   (* the model accepts the case, the harness rejected it *)
     | _ =>
-      let c := mkg drv tr (nn plen) seed ds in
+      let c := mkg drv tr (nn plen) seed ds (msg_multi_clen n mcount) in
       match dec_transcript l with
       | Some evs => Some (run_dgram c (mkgs [] []) evs O [])
       | None => Some l
